@@ -94,7 +94,7 @@ class EReject(Engine):
     assumptions = ['scoped to the two non-pure clauses of C15 (short source at a read seam; a rejected write is a no-op); the full '
                    'dtype x length x value classification of fresh constructions is a pure function and is met only as workload',
                    'negative offsets / lengths are outside the statement and are not generated']
-    expected_probes = ('window_inside', 'window_outside_offset', 'window_outside_length', 'window_at_exact_end', 'write_rejected',
+    expected_probes = ('window_inside', 'window_outside_offset', 'window_outside_length', 'window_at_exact_end', 'window_negative', 'write_rejected',
                        'write_accepted', 'write_at_limit', 'write_just_outside_limit', 'array_write_rejected', 'illegal_length', 'write_under_lsb0')
     exhaustive = True
 
@@ -145,8 +145,16 @@ class EReject(Engine):
                 for o in rng:
                     for ln in rng:
                         self.queue.append({'k': 'window', 'offset': o, 'length': ln})
+                # a window that starts before the data or has a negative length lies outside it as well
+                neg = [-1, -7, -8, -nb, -nb - 1]
+                for o in neg:
+                    for ln in (None, 0, 1, 8, nb, -1):
+                        self.queue.append({'k': 'window', 'offset': o, 'length': ln})
+                for ln in neg:
+                    for o in (None, 0, 1, 8, nb):
+                        self.queue.append({'k': 'window', 'offset': o, 'length': ln})
             else:
-                pts = [None, 0, 1, 7, 8, nb - 9, nb - 8, nb - 1, nb, nb + 1, nb + 8, nb + 9]
+                pts = [None, 0, 1, 7, 8, nb - 9, nb - 8, nb - 1, nb, nb + 1, nb + 8, nb + 9, -1, -8]
                 for o in pts:
                     for ln in pts:
                         self.queue.append({'k': 'window', 'offset': o, 'length': ln})
@@ -279,12 +287,13 @@ class EReject(Engine):
         C = getattr(B, cls)
         kind = self.cfg.get('kind')
         o, ln = ev.get('offset'), ev.get('length')
-        if (o is not None and (not isinstance(o, int) or o < 0)) or (ln is not None and (not isinstance(ln, int) or ln < 0)):
-            return {'skip': 'negative'}, []
+        if (o is not None and not isinstance(o, int)) or (ln is not None and not isinstance(ln, int)):
+            return {'skip': 'not an integer'}, []
         data = self.data
         nb = len(data) * 8
         base = 0 if o is None else o
-        inside = base <= nb and (ln is None or base + ln <= nb)
+        negative = base < 0 or (ln is not None and ln < 0)
+        inside = not negative and base <= nb and (ln is None or base + ln <= nb)
         kw = {}
         if o is not None:
             kw['offset'] = o
@@ -326,7 +335,7 @@ class EReject(Engine):
             if h:
                 h.close()
         incs = []
-        trig = ('len' if ln is not None else 'nolen') + (',off' if o else ',off0') + (',empty-source' if nb == 0 else '')
+        trig = ('len' if ln is not None else 'nolen') + (',off' if o else ',off0') + (',empty-source' if nb == 0 else '') + (',negative' if negative else '')
         if inside:
             self.probe('window_inside')
             if base + (ln or 0) == nb and (ln is not None):
@@ -340,7 +349,7 @@ class EReject(Engine):
                 if len(got) != n_want or len(x) != n_want or (want is not None and got != want) or (want is None and got != bytes_to_bits(data[base // 8:(base + n_want + 7) // 8])[base % 8:base % 8 + n_want]):
                     incs.append(self.inc(f'window|kind={kind}|{trig}|inside-wrong-content', cls=cls, size=len(data), offset=o, length=ln, got_len=len(got)))
         else:
-            self.probe('window_outside_offset' if base > nb else 'window_outside_length')
+            self.probe('window_negative' if negative else 'window_outside_offset' if base > nb else 'window_outside_length')
             if st == 'ok':
                 incs.append(self.inc(f'window|kind={kind}|{trig}|outside-but-created', cls=cls, size=len(data), offset=o, length=ln, got_len=len(kernel.safe_bin(x)),
                                      beyond='offset' if base > nb else 'length'))
